@@ -249,7 +249,8 @@ def fancy_get(I, st, a: Arr, ix: Arr, node=None):
     """a[ix] with ix an integer array (gather, fresh copy) or a boolean mask (unknown length selection)."""
     used("numpy fancy indexing a[idx] (gather; fresh copy)")
     if ix.etype == "bool":
-        raise Unsupported("boolean-mask selection (result length is data dependent)")
+        from . import lib2
+        return lib2.mask_select(I, st, a, ix, node)
     n = a.shape[0]
     if not I.in_contract and not I.dry:
         js = [z3.Int(fresh_name("fj")) for _ in range(ix.ndim)]
